@@ -783,4 +783,46 @@ pub(crate) mod verif_hooks {
         let summary = writer.finish().as_json();
         Ok((id, handle.events_snapshot().await, summary))
     }
+
+    /// The real PTY `emit_output` once per chunk (what `run_pty_task` does with every read of its
+    /// reader thread), with a real emitter.  Returns (artifact id, emitted frames, summary JSON).
+    pub async fn pty_emit_run(
+        data_dir: &Path,
+        workspace_root: &Path,
+        chunks: &[Vec<u8>],
+        cap: usize,
+        preview: usize,
+    ) -> Result<(String, Vec<Event>, Value), String> {
+        let config = config(workspace_root, cap, preview);
+        std::fs::create_dir_all(config.artifacts_blobs_dir()).map_err(|e| e.to_string())?;
+        let event_log =
+            Arc::new(EventLog::new(data_dir.join("events.jsonl")).map_err(|e| e.to_string())?);
+        let engine = TaskEngine::new(
+            config.clone(),
+            Arc::new(crate::workspace_lock::WorkspaceLock::new()),
+            event_log.clone(),
+            Arc::new(data_dir.join("task_snapshots")),
+        );
+        let handle = engine.create_task(&TaskSpawnPayload {
+            tool: "bash".to_string(),
+            args: Value::Null,
+            title: None,
+            execution_mode: Some(super::ApiToolTaskExecutionMode::Pty),
+            origin_session_id: None,
+        });
+        let emitter = TaskEmitter::new(&handle, event_log);
+        let id = new_artifact_id();
+        let rel = format!(".rip/artifacts/blobs/{id}");
+        let mut writer = TaskLogWriter::new(&config, &id, &rel, cap).await?;
+        super::pty::verif_emit_output_chunks(
+            &handle.task_id,
+            &emitter,
+            &mut writer,
+            preview,
+            chunks,
+        )
+        .await;
+        let summary = writer.finish().as_json();
+        Ok((id, handle.events_snapshot().await, summary))
+    }
 }
